@@ -529,7 +529,7 @@ func c06RunScenario(t *testing.T, idx int, sc c06Scenario) c06ScOut {
 		}
 		var obs []int
 		timeout := false
-		deadline := time.Now().Add(1200 * time.Millisecond)
+		deadline := time.Now().Add(4 * time.Second)
 		for {
 			obs = c06Observe(a, pid)
 			if ai < len(sc.Expect) && c06IntsEq(obs, sc.Expect[ai]) {
